@@ -2,6 +2,8 @@ package engine
 
 import (
 	_ "embed"
+	"go/ast"
+	"go/types"
 	"strings"
 )
 
@@ -27,4 +29,46 @@ var knownFuncs = func() map[string]bool {
 // IsNewHelper reports whether f is a function the obligation tables have never seen.
 func IsNewHelper(f *FuncInfo) bool {
 	return f != nil && !knownFuncs[f.Name()]
+}
+
+// WithHelpers returns f followed by the same-package functions it calls (statically resolved, transitively,
+// at most depth levels) — where a rule looks for a construct "in function f", a construct that a refactoring
+// moved into a helper of f is still found. onlyNew restricts the helpers to functions the tables have never seen.
+func (p *Prog) WithHelpers(f *FuncInfo, depth int, onlyNew bool) []*FuncInfo {
+	out := []*FuncInfo{f}
+	seen := map[*FuncInfo]bool{f: true}
+	level := []*FuncInfo{f}
+	for d := 0; d < depth && len(level) > 0; d++ {
+		var next []*FuncInfo
+		for _, g := range level {
+			info := g.Pkg.TypesInfo
+			ast.Inspect(g.Decl.Body, func(n ast.Node) bool {
+				call, ok := n.(*ast.CallExpr)
+				if !ok {
+					return true
+				}
+				var id *ast.Ident
+				switch fun := ast.Unparen(call.Fun).(type) {
+				case *ast.Ident:
+					id = fun
+				case *ast.SelectorExpr:
+					id = fun.Sel
+				}
+				if id == nil {
+					return true
+				}
+				fn, _ := info.Uses[id].(*types.Func)
+				h := p.Funcs[fn]
+				if h == nil || h.Pkg != f.Pkg || seen[h] || (onlyNew && !IsNewHelper(h)) {
+					return true
+				}
+				seen[h] = true
+				out = append(out, h)
+				next = append(next, h)
+				return true
+			})
+		}
+		level = next
+	}
+	return out
 }
